@@ -21,7 +21,7 @@ fn main() {
     let p = |id, rule| Property {
         id,
         level: Level::Exploration,
-        quick_runs: 60_000,
+        quick_runs: 120_000,
         thorough_runs: 3_000_000,
         quick_wall_s: 75.0,
         thorough_wall_s: 900.0,
@@ -29,10 +29,10 @@ fn main() {
         enumerate: None,
         rule,
         assumptions: &[
-            "ntpd's SourceTask::run glue (send-timestamp bookkeeping that defines T1, <48-byte drop, action dispatch) is mirrored in the world, not run",
+            "in ~85% of the runs ntpd's SourceTask::run glue (send-timestamp bookkeeping that defines T1, <48-byte drop, action dispatch) is mirrored in the world so that a read-only probe can compare the source's private state before/after every call; in ~15% of the runs the REAL SourceTask::run drives the source over a simulated socket (hook H15) and the monitors work at wire / measurement / MsgForSystem level",
             "client and server clocks are SimClock instances behind the NtpClock trait; T1..T4 are read from them at the simulated send/delivery instants",
             "the source controller behind the real TwoWaySourceControllerWrapper is a recording shim (optionally delegating to the real Kalman source filter); the clock controller loop is not run",
-            "plain (non-NTS) sources only; NTS sources are decided in world w1x",
+            "NTS sources use sessions minted in-crate against the server's key set (no key exchange) and only meet authenticated answers built by the real packet code plus network faults; forged unauthenticated traffic to NTS sources is world w1n/w1x territory (C07)",
         ],
     };
     cli_main(WorldDef {
@@ -52,9 +52,10 @@ fn main() {
             "ntp_proto::Server::handle (honest and flaky servers; v4-only and v5-capable)",
             "ntp_proto packet codec (client requests, server answers)",
             "ntp_proto Kalman source filter (desired poll interval) in a share of the runs",
+            "ntpd::daemon::ntp_source::SourceTask::run (real task, simulated socket via hook H15) in ~15% of the runs",
         ],
         stub_components: &[
-            "ntpd SourceTask::run glue -> ~40 mirrored lines (send timestamp, <48 byte drop, action dispatch)",
+            "ntpd SourceTask::run glue -> ~40 mirrored lines (send timestamp, <48 byte drop, action dispatch) in the probe-equipped mode",
             "UDP sockets -> simkit::net::SimNet; kernel clocks -> simntp::SimClock",
             "clock controller loop (TimeSyncControllerWrapper::run) not run; inner source controller is a recorder",
         ],
